@@ -252,6 +252,17 @@ Definition chk_substitute (h : hist Qc) (tbl : list (Qc * val (T:=Qc))) (use_add
            (md pl : option rawlimit) (expected : res (hist Qc)) : nat :=
   cres_code cnt_eqb
     (substitute VO Vzero FUEL h (expand_of tbl) (if use_add then coalesce_add else coalesce_replace) md pl) expected.
+(* an expand function that also depends on the histogram being expanded: one face table per histogram *)
+Definition expand_of2 (tbl : list (Qc * val (T:=Qc))) (tbls : list (hist Qc * list (Qc * val (T:=Qc))))
+           (src : hist Qc) (o : Qc) : val (T:=Qc) :=
+  match find (fun e => hist_eqb (fst e) src) tbls with
+  | Some e => expand_of (snd e) src o
+  | None => expand_of tbl src o
+  end.
+Definition chk_substitute2 (h : hist Qc) (tbl : list (Qc * val (T:=Qc))) (tbls : list (hist Qc * list (Qc * val (T:=Qc))))
+           (use_add : bool) (md pl : option rawlimit) (expected : res (hist Qc)) : nat :=
+  cres_code cnt_eqb
+    (substitute VO Vzero FUEL h (expand_of2 tbl tbls) (if use_add then coalesce_add else coalesce_replace) md pl) expected.
 Definition maxQ (h : hist Qc) : option Qc := match rev h with [] => None | oc :: _ => Some (fst oc) end.
 Definition chk_h_explode (h : hist Qc) (md pl : option rawlimit) (expected : res (hist Qc)) : nat :=
   cres_code cnt_eqb (h_explode VO Vzero vadd FUEL maxQ h md pl) expected.
